@@ -189,6 +189,12 @@ def run(ctx):
     ctx.correspond("hist", 150 if quick else 1500, name="hist-badutf8", args={"badutf8": "1"}, nontrivial=nontrivial, seed_offset=23)
     ctx.correspond("hist", 12 if quick else 100, name="hist-default-size", args={"big": "1"}, nontrivial=nontrivial, seed_offset=37)
     cli_stream(ctx)
+    # the shortest failing history first: it becomes the replay
+    def prio(h):
+        c = h["cls"]
+        rank = 0 if "panic" in c or c.startswith("cli-") else 1 if c in ("load-merge-stale-fields", "roundtrip-mismatch", "add-wrong-entries") else 2
+        return (rank, len(h["replay"].get("ops", [])) or 10 ** 9)
+    ctx.hits.sort(key=prio)
     left = [d for d in os.listdir(tmp)] if os.path.isdir(tmp) else []
     ctx.oblige("harness:temp-dirs-removed", "hygiene", not left, "left behind: %s" % left[:5])
     shutil.rmtree(tmp, ignore_errors=True)
